@@ -22,6 +22,8 @@ def spin(fn, n):
     return {fn: [dict(loop_id=str(i), assigns="T->status, T->result", invariants=SPIN_INV) for i in range(n)]}
 JOBS = [
   Job("c12.sizeclass", TA, "h_sizeclass", fuc=["MYTH_MALLOC_SIZE_TO_INDEX"], timeout=120),
+  Job("c12.sizeclass.limit", TA, "h_sizeclass_limit", fuc=["MYTH_MALLOC_SIZE_TO_INDEX"], timeout=120,
+      note="lemma: just above the stated precondition (2^30 < s <= 2^31) the class index is FREE_LIST_NUM, i.e. out of range"),
   Job("c12.freelist.push", TA, "h_push", enforce=["myth_freelist_push/push_contract"], fuc=["myth_freelist_push"], timeout=120),
   Job("c12.freelist.pop", TA, "h_pop", enforce=["myth_freelist_pop/pop_contract"], fuc=["myth_freelist_pop"], timeout=120),
   Job("c12.freelist.lifo", TA, "h_lifo", fuc=["myth_freelist_push", "myth_freelist_pop"], timeout=120),
@@ -50,4 +52,52 @@ JOBS = [
   Job("c12.detach", TR, "h_detach", replace_calls=REL, read_hooks=HOOK, loops=spin("myth_detach_body", 1), loop_counts={"myth_detach_body": 1},
       fuc=["myth_detach_body"], timeout=200),
 ]
-META = {}
+META = {
+ "level": "proof",
+ "level_text": "Every obligation generated from the real allocator bodies (size classes for all sizes 1..2^30, free-list push/pop with frame, "
+               "myth_flmalloc incl. the page-carving loop under a loop contract, myth_flfree, get/free of custom stacks, default stacks and "
+               "records) and from the real finish/join/tryjoin/detach bodies (ownership ledger with poison-on-release, arbitrary finisher "
+               "interference on the status word, resumption on any worker) is discharged; nothing is bounded except constants of the build "
+               "(STACK_ALLOC_UNIT == 1, PAGE_SIZE) and the two-worker witness.",
+ "level_note": "Modular: the list operations are proved against memory contracts (frame + LIFO) and used through ledger stubs elsewhere; the step "
+               "from 'each release is legal and unique, each block start/class is exact, carved cells are disjoint, mmap is fresh' to 'stacks "
+               "and records of live threads never overlap, for any number of threads and any interleaving' is a paper argument over the "
+               "witness thread. Precondition: sizes <= 2^30 (above that MYTH_MALLOC_SIZE_TO_INDEX leaves the list array / truncates; natively "
+               "a 2^30+4096 byte stack request crashes). Not decided: that the callback really runs on the next context's stack (asm, C03); "
+               "that a running thread's env field names its current worker (scheduler invariant used by myth_entry_point_cleanup).",
+ "trusted_base": ["cbmc 6.11.0 (goto-cc, goto-instrument --replace-calls / --dfcc loop contracts, SAT back end)",
+                  "gcc -E preprocessing of the real headers (rules R2, R4)",
+                  "paper step from the per-function ledger obligations to the global non-overlap / no-reuse statement"],
+ "explanation": "Part 1 (c12_alloc.c): size-class arithmetic over all sizes in the stated domain; myth_freelist_push/pop against contracts with "
+                "exact frame (only list head and first word of the cell); myth_flmalloc/myth_flfree with list operations replaced by ledger stubs "
+                "that demand the right list (class(size), executing worker) and, while carving, that the j-th push is cell j of the fresh page "
+                "(loop contract); custom stack layout, size word and exact recomputation of the block start and class on release, on the "
+                "allocator's contract and on the real allocator; default stacks and records incl. recycling. Part 2 (c12_release.c): the real "
+                "myth_entry_point_cleanup/_1/_2, myth_join_body/_1/_2/_3, myth_tryjoin_body, myth_detach_body with free_*_stack/desc, the "
+                "record's spin lock and the run queue replaced by ledger stubs: stack released exactly once, only after the jump away, to the "
+                "current worker; record released exactly once, by the finisher iff detached (after unlock, after the stack), otherwise by the "
+                "reaper only at an instant where FREE_READY2 is visible and to the worker it runs on NOW; released/handed-over records are "
+                "deallocated in the model so any later access fails.",
+ "assumptions": [
+   "PRECONDITION of the size classes: 1 <= size <= 2^30 (MYTH_MALLOC_SIZE_TO_INDEX passes size_t to the 32-bit __builtin_clz: for 2^30 < size <= 2^31 "
+   "the index is FREE_LIST_NUM (out of range, job c12.sizeclass.limit), above 2^32 the size is truncated); g_attr.stacksize in [4096, 2^30]",
+   "stub: mmap returns a fresh object of the requested length, disjoint from every other object, and never fails (OS contract; on failure the library aborts in myth_mmap); "
+   "its arguments are checked (anonymous, private, read/write, whole pages)",
+   "ledger stubs with bodies (goto-instrument --replace-calls) stand for myth_freelist_push/pop in the flmalloc/stack/record jobs; their memory effect is proved "
+   "separately (jobs c12.freelist.*); in job c12.stack.custom also for myth_flmalloc/myth_flfree (contract: block of `size` bytes owned by the caller / "
+   "live block, exact start, same class, executing worker), which is proved on the real bodies in c12.flmalloc, c12.flfree, c12.stack.custom.alloc",
+   "part 2 stubs: free_myth_thread_struct_stack/_desc (ledger + deallocation of the record as poison), myth_spin_lock_body/myth_spin_unlock_body on the record's lock "
+   "(ledger: held/not held, hand-over of the record at the unlock), myth_queue_pop (returns a runnable thread or NULL), myth_tls_tree_fini (C11, no effect here)",
+   "context switches are replaced by their control-flow meaning: set_context_withcall = run the callback, never return; swap_context_withcall = run the callback, "
+   "then be resumed arbitrarily later on ANY worker (g_worker_rank havocked) after arbitrary progress of the finisher; what the asm does is C03",
+   "rely of the reaper on the finisher: status below FREE_READY may change arbitrarily, FREE_READY only to FREE_READY2, FREE_READY2 is final until the thread is reaped; "
+   "the exit value is fixed once the status is >= FREE_READY; nothing changes while the reaper holds the record's lock; a thread is reaped by at most one caller (join XOR detach, as pthreads demands)",
+   "the finisher's view: myth_entry_point_cleanup takes the worker from this_thread->env; that a running thread's env field names the worker it runs on is a scheduler invariant assumed here (C01/C02)",
+   "not modelled as a violation: the unlocked fast path of myth_detach_body may release the record between the finisher's store of FREE_READY2 and its unlock store, so the store "
+   "`lock.locked = 0` can land in a released (possibly recycled) record; harmless with the test-and-set spin lock (nobody can acquire that lock before this very store), reported to the lead",
+   "two workers (the executing one and one other) as witness; every harness runs once per possible current worker; STACK_ALLOC_UNIT == 1 and PAGE_SIZE == 4096 are constants of the build "
+   "(loops over STACK_ALLOC_UNIT unwound with unwinding assertions: complete)",
+   "that the post-switch callback really executes on the next context's stack (so that the released stack is no longer in use) is the asm's business (C03)",
+   "liveness (the spin loops on FREE_READY2 terminate) is not decided",
+ ],
+}
